@@ -695,12 +695,12 @@ func (m *Message) GetDialog() (string, error) {
 	// identifier does not depend on the direction of the message
 	if from_addr_s < to_addr_s || (from_addr_s == to_addr_s && from_tag < to_tag) {
 		return NewDialog(callId,
-			fmt.Sprintf("%s-%s", from_tag, from_addr_s),
-			fmt.Sprintf("%s-%s", to_tag, to_addr_s)).String(), nil
+			fmt.Sprintf("%s %s", from_tag, from_addr_s),
+			fmt.Sprintf("%s %s", to_tag, to_addr_s)).String(), nil
 	} else {
 		return NewDialog(callId,
-			fmt.Sprintf("%s-%s", to_tag, to_addr_s),
-			fmt.Sprintf("%s-%s", from_tag, from_addr_s)).String(), nil
+			fmt.Sprintf("%s %s", to_tag, to_addr_s),
+			fmt.Sprintf("%s %s", from_tag, from_addr_s)).String(), nil
 
 	}
 }
